@@ -157,6 +157,99 @@ fn trace_check(program: &Program, job: &Value) -> Value {
     json!({"status":"ok","rows": rows, "trace_len": n, "nonzero": bad, "bad_assertions": bad_assert, "constraints": nmain})
 }
 
+/// Executes a program whose root is one span made of the given operations and checks the decoder
+/// columns of the real trace: (a) the operations on in-span rows, with NOOPs removed, are the given
+/// operations with NOOPs removed; (b) within a group h0 (operations left in the group) loses the low
+/// 7 bits = the opcode of the row; (c) h0 is 0 on the last row of every group; (d) the group counter
+/// is 0 on the END row; (e) op_idx restarts at 0 with each group and counts up by one.
+fn span_decode(job: &Value) -> Value {
+    use miden_air::trace::decoder::{GROUP_COUNT_COL_IDX, HASHER_STATE_OFFSET, IN_SPAN_COL_IDX, NUM_OP_BITS, OP_BITS_OFFSET, OP_INDEX_COL_IDX};
+    use miden_air::trace::DECODER_TRACE_OFFSET;
+    use winter_prover::Trace;
+    let ops: Vec<Operation> = job["ops"].as_array().unwrap().iter().map(op_from).collect();
+    let program = Program::new(CodeBlock::new_span(ops.clone()));
+    let r = panic::catch_unwind(panic::AssertUnwindSafe(|| {
+        miden_processor::execute(&program, StackInputs::default(), DefaultHost::default(), ExecutionOptions::default())
+    }));
+    let trace = match r {
+        Err(_) => return json!({"status":"panic"}),
+        Ok(Err(e)) => return json!({"status":"error","error": format!("{e:?}")}),
+        Ok(Ok(t)) => t,
+    };
+    let main = trace.main_segment();
+    let n = main.num_rows();
+    let col = |c: usize, i: usize| main.get(DECODER_TRACE_OFFSET + c, i).as_int();
+    let opcode = |i: usize| (0..NUM_OP_BITS).map(|b| col(OP_BITS_OFFSET + b, i) << b).sum::<u64>();
+    let span_code = Operation::Span.op_code() as u64;
+    let respan_code = Operation::Respan.op_code() as u64;
+    let end_code = Operation::End.op_code() as u64;
+    let mut problems: Vec<String> = Vec::new();
+    let mut stream: Vec<u64> = Vec::new();
+    let mut i = 0usize;
+    while i < n && opcode(i) != span_code { i += 1; }
+    if i == n { return json!({"status":"ok","consistent": false, "problems": ["no SPAN row"]}); }
+    // row i is SPAN / RESPAN: h0 of it holds the first group of the batch; following rows are in-span
+    let mut prev_h0 = col(HASHER_STATE_OFFSET, i);
+    let mut prev_cnt = col(GROUP_COUNT_COL_IDX, i);
+    let mut expect_idx = 0u64;
+    let mut first_of_batch = true;
+    i += 1;
+    let mut ended = false;
+    while i < n {
+        let oc = opcode(i);
+        if col(IN_SPAN_COL_IDX, i) != 1 {
+            if oc == respan_code {
+                if prev_h0 != 0 { problems.push(format!("row {i}: RESPAN while the group value is {prev_h0}")); }
+                prev_h0 = col(HASHER_STATE_OFFSET, i);
+                prev_cnt = col(GROUP_COUNT_COL_IDX, i);
+                expect_idx = 0;
+                first_of_batch = true;
+                i += 1;
+                continue;
+            }
+            if oc == end_code {
+                if prev_h0 != 0 { problems.push(format!("row {i}: END while the group value is {prev_h0}")); }
+                if col(GROUP_COUNT_COL_IDX, i) != 0 { problems.push(format!("row {i}: group counter {} at END", col(GROUP_COUNT_COL_IDX, i))); }
+                ended = true;
+            } else {
+                problems.push(format!("row {i}: opcode {oc} outside the span"));
+            }
+            break;
+        }
+        let h0 = col(HASHER_STATE_OFFSET, i);
+        let cnt = col(GROUP_COUNT_COL_IDX, i);
+        let idx = col(OP_INDEX_COL_IDX, i);
+        // a new group starts on this row when op_idx is 0 (and it is not the first row of the batch):
+        // the group value before this row is then unknown to this oracle (it is the batch's next
+        // group), so only rows inside a group are checked against the previous h0
+        let new_group = idx == 0 && !first_of_batch;
+        if new_group {
+            if prev_h0 != 0 { problems.push(format!("row {i}: new group starts while the previous group value is {prev_h0}")); }
+            if h0 >= (1u64 << 63) { problems.push(format!("row {i}: group value {h0}")); }
+            expect_idx = 0;
+        } else {
+            if prev_h0 < oc || (prev_h0 - oc) % 128 != 0 || (prev_h0 - oc) >> 7 != h0 {
+                problems.push(format!("row {i}: group value {prev_h0} -> {h0} does not remove opcode {oc}"));
+            }
+        }
+        if idx != expect_idx || idx > 8 { problems.push(format!("row {i}: op_idx {idx}, expected {expect_idx}")); }
+        if cnt > prev_cnt { problems.push(format!("row {i}: group counter grows {prev_cnt} -> {cnt}")); }
+        stream.push(oc);
+        expect_idx += 1;
+        prev_h0 = h0;
+        prev_cnt = cnt;
+        first_of_batch = false;
+        i += 1;
+    }
+    if !ended { problems.push("no END row after the span".to_string()); }
+    let noop = Operation::Noop.op_code() as u64;
+    let got: Vec<u64> = stream.iter().copied().filter(|&c| c != noop).collect();
+    let want: Vec<u64> = ops.iter().map(|o| o.op_code() as u64).filter(|&c| c != noop).collect();
+    if got != want { problems.push(format!("operation stream {got:?} differs from the program {want:?}")); }
+    let n_noops = stream.iter().filter(|&&c| c == noop).count();
+    json!({"status":"ok","consistent": problems.is_empty(), "problems": problems, "rows_in_span": stream.len(), "noops": n_noops})
+}
+
 fn main() {
     panic::set_hook(Box::new(|_| {}));
     let args: Vec<String> = std::env::args().collect();
@@ -311,6 +404,7 @@ fn main() {
                     .collect();
                 out.push(json!({"status":"ok","num_batches": batches.len(), "batches": batches}));
             }
+            "span_decode" => out.push(span_decode(job)),
             "trace_check" => {
                 // execute a program and evaluate every main transition constraint of the real AIR
                 // on every non-exempt row pair of the real trace
